@@ -38,6 +38,11 @@ pub struct TunnelCase {
     /// the target listens on ::1 instead of a 127/8 address
     #[serde(default)]
     pub v6_target: bool,
+    /// Some(k): after exchange k a socket that is not the target sends a datagram to the server's
+    /// relay socket (a stray packet, a scanner). Whatever becomes of that datagram, the application's
+    /// next datagrams still go to the requested target and nothing goes to the stranger.
+    #[serde(default)]
+    pub stranger_after: Option<u8>,
 }
 
 pub struct TunnelFam;
@@ -56,7 +61,9 @@ impl Family for TunnelFam {
         "tunnel"
     }
     fn strategy(&self, _tier: Tier) -> BoxedStrategy<TunnelCase> {
-        (proptest::collection::vec((size_strategy(), proptest::collection::vec(size_strategy(), 0..3)), 1..8), proptest::bool::weighted(0.25)).prop_map(|(exchanges, v6_target)| TunnelCase { exchanges, v6_target }).boxed()
+        (proptest::collection::vec((size_strategy(), proptest::collection::vec(size_strategy(), 0..3)), 1..8), proptest::bool::weighted(0.25), proptest::option::weighted(0.3, 0u8..3))
+            .prop_map(|(exchanges, v6_target, stranger_after)| TunnelCase { exchanges, v6_target, stranger_after })
+            .boxed()
     }
     fn case_budget_s(&self) -> u64 {
         120
@@ -84,6 +91,8 @@ impl Family for TunnelFam {
                 };
                 let app = UdpSocket::bind(SocketAddr::new(IpAddr::V4(worker_ip()), 0)).await.map_err(|e| infra(format!("app udp bind: {e}")))?;
                 let mut relay_addr: Option<SocketAddr> = None;
+                let stranger = UdpSocket::bind(SocketAddr::new(if target.addr.is_ipv6() { IpAddr::V6(std::net::Ipv6Addr::LOCALHOST) } else { IpAddr::V4(worker_ip_n(22)) }, 0)).await.map_err(|e| infra(format!("stranger udp bind: {e}")))?;
+                let mut stray_sent = false;
                 for (k, (size, replies)) in case.exchanges.iter().enumerate() {
                     let payload = keyed(k as u32, 6, 0, *size);
                     let before = target.count();
@@ -114,6 +123,17 @@ impl Family for TunnelFam {
                             None => return Err(Fail::plain("C15.one", format!("reply #{j} to datagram #{k} ({rs} bytes) never reached the application"))),
                         }
                     }
+                    if case.stranger_after == Some(k as u8) {
+                        stranger.send_to(b"not-from-the-target", relay_addr.unwrap()).await.map_err(|e| infra(format!("stranger send: {e}")))?;
+                        stray_sent = true;
+                        // the property says nothing about what becomes of it: whatever reaches the
+                        // application from it is taken off the socket and not judged
+                        tokio::time::sleep(Duration::from_millis(100)).await;
+                        while recv_dgram(&app, 100).await.is_some() {}
+                    }
+                }
+                if stray_sent {
+                    ensure!(recv_dgram(&stranger, 50).await.is_none(), "C15.none", "a datagram was delivered to a socket that is not the requested target (the sender of a stray datagram to the relay)");
                 }
                 // nothing else arrives anywhere
                 ensure!(recv_dgram(&app, 50).await.is_none(), "C15.none", "the application received a datagram nobody sent");
@@ -131,6 +151,7 @@ impl Family for TunnelFam {
         out.class_if(case.exchanges.iter().any(|(s, _)| *s >= 65000), "near-udp-max");
         out.class_if(case.exchanges.iter().any(|(_, r)| r.len() >= 2), "several-replies");
         out.class_if(case.v6_target, "ipv6-target");
+        out.class_if(case.stranger_after.is_some_and(|k| (k as usize) + 1 < case.exchanges.len()), "stray-datagram-then-more-traffic");
         Ok(out)
     }
 }
@@ -350,7 +371,7 @@ impl Family for ClientRelayFam {
         let c = case.clone();
         let r: Result<(), Fail> = run_real(async move {
             let case = c;
-            let beh = Behaviour { synack: true, echo: false, heartbeat: true, server_settings: true, scheme: None, schemes: vec![], heartbeat_limit: None, uot_echo: Some((case.cuts.clone(), case.pause_ms)) };
+            let beh = Behaviour { synack: true, echo: false, heartbeat: true, server_settings: true, scheme: None, schemes: vec![], heartbeat_limit: None, uot_echo: Some((case.cuts.clone(), case.pause_ms)), ..Default::default() };
             let srv = RefServer::start(PASSWORD, beh).await?;
             let cfg = anytls_rs::util::tls::create_client_config().map_err(|e| infra(e.to_string()))?;
             let connector = Arc::new(tokio_rustls::TlsConnector::from(cfg));
